@@ -11,6 +11,7 @@ with any message, at-tip rounds against ANY network: any number of peers, any
 answers, any served filters, any verification table, any map order / pick).
 -/
 import Neutrino.Lemmas.CFHeaders
+import Neutrino.Lemmas.CFHonest
 import Neutrino.Gen.CFHeaders
 namespace Neutrino.CFHeaders
 
@@ -163,14 +164,6 @@ theorem C03_detect_early_return (net : Net) (s : St) (hs : List (Peer × Msg)) (
   simp only [hne, Bool.not_false, ↓reduceIte]
 
 
-/-- the round as the property sees it -/
-def roundOf (s : St) (net : Net) (truth : Nat → FHash) : Round :=
-  { peers := net.peers.filter (live s), resps := net.resps, served := net.served, verify := net.verify,
-    getBlock := net.getBlock, tip := (s.fstore.getLast?).getD 0, start := s.fstore.length,
-    n := batchLen s, truth := truth }
-
-def newBans (s s' : St) : List Peer := (s'.bans.drop s.bans.length).map (·.1)
-
 /-- the honest-wins clause for one round from state `s` -/
 def HonestWinsAt (H : FHash → Hdr → Hdr) (s : St) (net : Net) (truth : Nat → FHash) : Prop :=
   s.fstore.length < s.blocks.length → (roundOf s net truth).hyp = true →
@@ -220,6 +213,48 @@ theorem C03_honest_wins_counterexample_commits_false :
     (tipRound Cex.H Cex.s (Cex.net 0)).1.fstore = [1, 107] ∧
     (tipRound Cex.H Cex.s (Cex.net 0)).1.bans = [(2, 3)] := by decide
 
+
+/-- Clause (d) under the negation of the two recorded shapes: in a round that
+is NOT of the F12 shape (`shapeEarlyReturn`: at one index a responding peer is
+silent / self-inconsistent AND another is a self-consistent liar) and in which
+nobody advertises the all-zero hash (`noZero`), whenever an honest peer answers
+and every false value is provably inconsistent, the batch committed is the
+honest one, every liar is banned and no honest peer is — for every hash
+function, every state satisfying the invariant (block ids distinct), every
+number of peers, every assignment of answers / served filters / verification
+results, every order of the peer map and every pick. -/
+theorem C03_honest_wins_partial (H : FHash → Hdr → Hdr) (s : St) (net : Net) (truth : Nat → FHash)
+    (hi : Inv H s) (hnd : s.blocks.Nodup)
+    (hshape : (roundOf s net truth).shapeEarlyReturn = false)
+    (hzero : (roundOf s net truth).noZero = true) :
+    HonestWinsAt H s net truth :=
+  fun hahead hhyp => honest_wins_round H s net truth hi hnd hahead hhyp hshape hzero
+
+namespace ExPartial
+/-- peer 1 honest; peer 2 advertises a false hash but serves the true filter
+(caught by phase 1); peer 3 sends a wrong previous header; peer 4 a
+self-consistent false filter at the second height (caught by the block) -/
+def s : St := { blocks := [0, 1, 2], fstore := [1], fblk := [0] }
+def truth : Nat → FHash := fun h => 6 + h
+def net (pick : Nat) : Net :=
+  { peers := [4, 2, 1, 3]
+    resps := fun p =>
+      if p = 2 then [⟨true, 1, [9, 8]⟩] else if p = 3 then [⟨true, 5, [7, 8]⟩]
+      else if p = 4 then [⟨false, 1, [7, 8]⟩, ⟨true, 1, [7, 9]⟩] else [⟨true, 1, [7, 8]⟩]
+    served := fun p h => if p = 4 ∧ h = 2 then some 9 else some (6 + h)
+    verify := fun f _ => if f = 9 then .bad else .ok 0
+    getBlock := fun _ => true
+    pick := pick }
+end ExPartial
+
+/-- the hypotheses of `C03_honest_wins_partial` are satisfiable with liars of
+three kinds present, and its conclusion is what the model computes -/
+example : (roundOf ExPartial.s (ExPartial.net 0) ExPartial.truth).hyp = true ∧
+    (roundOf ExPartial.s (ExPartial.net 0) ExPartial.truth).shapeEarlyReturn = false ∧
+    (roundOf ExPartial.s (ExPartial.net 0) ExPartial.truth).noZero = true ∧
+    ExPartial.s.blocks.Nodup ∧
+    (tipRound Cex.H ExPartial.s (ExPartial.net 0)).1.fstore = [1, 107, 10708] ∧
+    (tipRound Cex.H ExPartial.s (ExPartial.net 0)).1.bans = [(3, 3), (2, 3), (4, 3)] := by decide
 
 namespace CexZero
 /-- peer 1 honest; peer 2 advertises the all-zero filter hash and serves nothing.
